@@ -364,6 +364,34 @@ def oracle_replace(ctx, rng):
                                   % (R.FREQNAMES[freq], d0, d1, got, want),
                                   {"kind": "replace", "params": {"freq": freq, "dtstart": str(d0), "count": 4}, "kw": {"dtstart": str(d1)}},
                                   {"impl": got, "merged": want})
+    # every scalar attribute that is not named survives replace() — checked on the attributes themselves (a lost UNTIL would make
+    # the listing infinite), on UNTIL-bounded, COUNT-bounded and COUNT+UNTIL rules, cache on and off
+    for i in range(ctx.budget(40, 300)):
+        p0 = rrlib.random_rule_params(rng)
+        variants = [(p0, [])] + rrlib.until_variants(rng, p0, 2)
+        for p, _sp in variants:
+            cache = rng.random() < 0.5
+            r = rrlib.make_rule(p, cache)
+            name = rng.choice(["interval", "wkst", "byhour", "freq", "dtstart", "count", "until"])
+            kw = {"interval": {"interval": p["interval"]}, "wkst": {"wkst": rng.randint(0, 6)}, "byhour": {"byhour": (p["dtstart"].hour,)},
+                  "freq": {"freq": p["freq"]}, "dtstart": {"dtstart": p["dtstart"]}, "count": {"count": p.get("count")},
+                  "until": {"until": p.get("until")}}[name]
+            import warnings
+            with warnings.catch_warnings():
+                warnings.simplefilter("ignore")
+                try:
+                    r2 = r.replace(**kw)
+                    got = {"interval": r2._interval, "count": r2._count, "dtstart": r2._dtstart, "freq": r2._freq, "until": r2._until,
+                           "wkst": r2._wkst if "wkst" not in kw else None, "cache": r2._cache is not None}
+                except Exception as ex:
+                    got = "err " + type(ex).__name__
+            want = {"interval": r._interval, "count": r._count, "dtstart": r._dtstart, "freq": r._freq, "until": r._until,
+                    "wkst": r._wkst if "wkst" not in kw else None, "cache": cache}
+            ctx.case(("replace-attrs", repr(sorted((k, str(v)) for k, v in p.items())), name, cache))
+            ctx.count("replace_scalar_attributes")
+            if got != want:
+                ctx.violation("rrule(%r, cache=%s).replace(%r): scalar attributes of the new rule %s, of the original %s" % (p, cache, kw, got, want),
+                              {"kind": "replace-attrs", "params": rrlib.params_record(p), "kw": rrlib.params_record(kw), "cache": cache}, None)
     # count() asked FIRST on a fresh / replace()d rule whose COUNT is cut short by year 9999
     for i in range(ctx.budget(12, 60)):
         p = rrlib.maxyear_rule_params(rng)
@@ -586,5 +614,16 @@ def replay(ctx, payload):
         return fresh == n and rep == n
     if c.get("kind") == "live":
         return replay_live(c)
+    if c.get("kind") == "replace-attrs":
+        import warnings
+        p, kw = rrlib.params_rebuild(c["params"]), rrlib.params_rebuild(c["kw"])
+        with warnings.catch_warnings():
+            warnings.simplefilter("ignore")
+            r = rrlib.make_rule(p, c["cache"])
+            r2 = r.replace(**kw)
+        a = (r._interval, r._count, r._dtstart, r._freq, r._until, r._cache is not None)
+        b = (r2._interval, r2._count, r2._dtstart, r2._freq, r2._until, r2._cache is not None)
+        print("replay replace(%r): original (interval, count, dtstart, freq, until, cache) %s, new %s" % (kw, a, b))
+        return a == b or any(k in kw for k in ("interval", "count", "dtstart", "freq", "until"))
     print("replay: unsupported case kind", c.get("kind"))
     return False
